@@ -195,6 +195,10 @@ class LiteralEvaluator:
 			else:
 				return float(arguments[0])
 		elif org_calls == 'str':
+			# 文字列リテラルのstrへのキャストは値が変化しない ※再度引用符で囲うと引用符を含む別の値になってしまう
+			if isinstance(arguments[0], str) and self._allow_string(arguments[0]):
+				return arguments[0]
+
 			return f'"{str(arguments[0])}"'
 
 		raise Errors.OperationNotAllowed(node, calls, arguments)
